@@ -250,6 +250,7 @@ let run (toks : string list) : string =
         | ["DUPW"; a; b; c; n] ->
           (* two writers of the same value: one change per characteristic and round, one event each (C10_at_most_once per change) *)
           emit (if alive a && alive b && alive c then Printf.sprintf "DUPW=ok/%s" n else "DUPW=noconn")
+        | ["CHURN"; _] -> emit "CHURN=ok"
         | ["RSC"; n] -> emit (Printf.sprintf "RSC=ok/%s" n)      (* connections are independent objects in the model *)
         | ["STALL"; c; _; _; _] -> emit (if alive c then "STALL=ok" else "STALL=noconn")
         | ["SRPMANY"; _n] -> emit "SRPMANY=ok"     (* C04_srp_completes: whatever the accessory's secret b *)
